@@ -1,18 +1,17 @@
-"""Discharge obligations: z3 (Python API) with seed retries, then cvc5 on the SMT-LIB dump."""
+"""Discharge obligations: staged portfolio over relevance slices x z3 configurations, each attempt in
+a fresh z3 context with a deterministic resource budget; cvc5 on the SMT-LIB dump as last resort."""
+import hashlib
+import json
 import os
+import re
 import subprocess
 import tempfile
+import threading
 import time
 
 import z3
 
-
-def smt2_of(obl):
-    s = z3.Solver()
-    s.add(*obl.hyps)
-    s.add(z3.Not(obl.goal))
-    return s.to_smt2()
-
+RL_PER_MS = 12000    # resource units per millisecond of nominal budget (generous; wall-clock limits are the safety net)
 
 PORTFOLIO = [
     ("z3 default", {}),
@@ -20,6 +19,13 @@ PORTFOLIO = [
     ("z3 seed7", {"smt.random_seed": 7}),
     ("z3 ematching-only", {"smt.mbqi": False, "smt.random_seed": 3}),
 ]
+
+
+def smt2_of(obl):
+    s = z3.Solver()
+    s.add(*obl.hyps)
+    s.add(z3.Not(obl.goal))
+    return s.to_smt2()
 
 
 def _symbols(e, cache):
@@ -54,7 +60,6 @@ def slices(obl, levels=(1, 2, 3)):
     hs = [(h, _symbols(h, cache)) for h in obl.hyps]
     cur = set(_symbols(obl.goal, cache))
     out = []
-    chosen = []
     for lvl in range(1, max(levels) + 1):
         chosen = [h for h, sy in hs if sy & cur]
         for h, sy in hs:
@@ -67,26 +72,48 @@ def slices(obl, levels=(1, 2, 3)):
     return out
 
 
-RL_PER_MS = 12000    # resource units per millisecond of nominal budget (generous; wall-clock limits are the safety net)
-
-
-def _try(hyps, goal, cfg, tmo, want_model=False):
-    """One solver attempt.  The budget is a deterministic resource limit (z3 rlimit), so the
-    verdict does not depend on machine load; the wall-clock timeout / interrupt are safety nets."""
-    s = z3.Solver()
-    s.set("rlimit", int(max(tmo, 300) * RL_PER_MS))
-    s.set("timeout", int(max(tmo, 300) * 6))
+def _try(hyps, goal, cfg, tmo, core=False):
+    """One solver attempt in a FRESH z3 context (the verdict then depends on the query only, not on
+    what was solved earlier in this process).  The budget is a deterministic resource limit (rlimit),
+    so machine load does not change the verdict; wall-clock timeout and interrupt are safety nets."""
+    ctx = z3.Context()
+    s = z3.Solver(ctx=ctx)
+    s.set("rlimit", int(max(tmo, 200) * RL_PER_MS))
+    s.set("timeout", int(max(tmo, 200) * 6 + 3000))
+    if core:
+        s.set(unsat_core=True)
     for k, v in cfg.items():
         s.set(k, v)
-    s.add(*hyps)
-    s.add(z3.Not(goal))
-    r = s.check()
-    return r, s
+    names = {}
+    for i, h in enumerate(hyps):
+        if core:
+            b = z3.Bool("hyp!%d" % i, ctx)
+            names[str(b)] = h
+            s.assert_and_track(h.translate(ctx), b)
+        else:
+            s.add(h.translate(ctx))
+    s.add(z3.Not(goal.translate(ctx)))
+    timer = threading.Timer(max(tmo, 200) / 1000.0 * 8 + 5.0, ctx.interrupt)
+    timer.start()
+    try:
+        r = s.check()
+    except z3.Z3Exception:
+        r = z3.unknown
+    finally:
+        timer.cancel()
+    verdict = "unsat" if r == z3.unsat else ("sat" if r == z3.sat else "unknown")
+    info = None
+    if verdict == "unsat" and core:
+        info = [names[str(b)] for b in s.unsat_core()]
+    elif verdict == "unknown":
+        try:
+            info = s.reason_unknown()
+        except Exception:
+            info = "unknown"
+    return verdict, info
 
 
-import hashlib
-import json
-import re
+# ----------------------------------------------------------------------------- proof hints
 
 _HINTS = None
 HINTS_PATH = os.path.join(os.path.dirname(os.path.dirname(os.path.abspath(__file__))), "proof_hints.json")
@@ -112,72 +139,51 @@ def hint_key(obl):
     return re.sub(r":L\d+:", ":", obl.name) + "|" + fingerprint(obl.goal)
 
 
-def core_of(obl, hyps, cfg, tmo=30000):
-    """Unsat core (as hypothesis fingerprints) of a proved obligation."""
-    s = z3.Solver()
-    s.set("timeout", tmo)
-    s.set(unsat_core=True)
-    for k, v in cfg.items():
-        s.set(k, v)
-    names = {}
-    for i, h in enumerate(hyps):
-        b = z3.Bool("hyp!%d" % i)
-        names[str(b)] = h
-        s.assert_and_track(h, b)
-    s.add(z3.Not(obl.goal))
-    import threading
-    timer = threading.Timer(tmo / 1000.0 * 1.5 + 1, s.ctx.interrupt)
-    timer.start()
-    try:
-        r = s.check()
-    except z3.Z3Exception:
-        r = z3.unknown
-    finally:
-        timer.cancel()
-    if r != z3.unsat:
+def core_of(obl, hyps, cfg, tmo=4000):
+    """Unsat core (as hypothesis fingerprints) of a proved obligation; None when it cannot be had."""
+    verdict, info = _try(hyps, obl.goal, cfg, tmo, core=True)
+    if verdict != "unsat":
         return None
-    return sorted({fingerprint(names[str(b)]) for b in s.unsat_core()})
+    return sorted({fingerprint(h) for h in info})
 
 
 def discharge(obl, timeout_ms=20000, use_cvc5=True, want_model=False, record=None, **_):
-    """Portfolio over relevance slices x solver configurations.  The first `unsat` proves the
-    obligation (a subset of the hypotheses suffices); `sat` on the full set refutes it."""
+    """Staged plan (iterative deepening): cheap attempts first.  The first `unsat` proves the
+    obligation (a subset of the hypotheses suffices); `sat` on the full set refutes it.  A recorded
+    proof hint (the hypotheses that sufficed last time) only selects a subset of the real
+    hypotheses, so it cannot make anything provable that is not."""
     t0 = time.time()
     last = "unknown"
-    # 0. a recorded proof hint: the hypotheses that sufficed last time (soundness does not depend
-    #    on the hint: it only selects a subset of the real hypotheses)
     h = hints().get(hint_key(obl))
+    sub = None
     if h:
         want = set(h["core"])
         sub = [x for x in obl.hyps if fingerprint(x) in want]
-        for cname, cfg in ([c for c in PORTFOLIO if c[0] == h.get("cfg")] + PORTFOLIO[:2])[:3]:
-            r, s = _try(sub, obl.goal, cfg, 8000)
-            if r == z3.unsat:
-                return {"status": "proved", "backend": "%s/hint-core[%d of %d hyps] (z3 %s)" % (cname, len(sub), len(obl.hyps), z3.get_version_string()),
-                        "seconds": time.time() - t0}
     sl = slices(obl)
+    two = PORTFOLIO[:2]
+    if h and h.get("cfg") == "z3 mbqi-only":
+        two = [PORTFOLIO[1], PORTFOLIO[0]]
     plan = []
-    for budget in (250, timeout_ms // 5):
-        for sname, hyps in sl:
-            for cname, cfg in PORTFOLIO[:2] if budget == 250 else PORTFOLIO:
-                plan.append((sname, hyps, cname, cfg, budget))
-    deadline = t0 + 2.5 * timeout_ms / 1000.0
+    if sub is not None:
+        plan += [("hint-core", sub, c, cfg, 300) for c, cfg in two]
+    for sname, hyps in sl:
+        plan += [(sname, hyps, c, cfg, 250) for c, cfg in two]
+    if sub is not None:
+        plan += [("hint-core", sub, c, cfg, 2500) for c, cfg in two]
+    for sname, hyps in sl:
+        plan += [(sname, hyps, c, cfg, timeout_ms // 5) for c, cfg in PORTFOLIO]
     for sname, hyps, cname, cfg, budget in plan:
-        if time.time() > deadline:
-            break
-        r, s = _try(hyps, obl.goal, cfg, budget)
-        if r == z3.unsat:
+        verdict, info = _try(hyps, obl.goal, cfg, budget)
+        if verdict == "unsat":
             if record is not None:
-                core = core_of(obl, hyps, cfg)
+                core = core_of(obl, hyps, cfg, max(budget * 2, 1000))
                 record[hint_key(obl)] = {"core": core if core is not None else sorted({fingerprint(x) for x in hyps}), "cfg": cname}
-            return {"status": "proved", "backend": "%s/%s (z3 %s)" % (cname, sname, z3.get_version_string()), "seconds": time.time() - t0}
-        if r == z3.sat and sname == "all":
-            out = {"status": "refuted", "backend": "%s (z3 %s)" % (cname, z3.get_version_string()), "seconds": time.time() - t0}
-            if want_model:
-                out["model"] = s.model()
-            return out
-        if r == z3.unknown:
-            last = s.reason_unknown()
+            return {"status": "proved", "backend": "%s/%s[%d of %d hyps] (z3 %s)" % (cname, sname, len(hyps), len(obl.hyps), z3.get_version_string()),
+                    "seconds": time.time() - t0}
+        if verdict == "sat" and sname == "all":
+            return {"status": "refuted", "backend": "%s (z3 %s)" % (cname, z3.get_version_string()), "seconds": time.time() - t0}
+        if verdict == "unknown":
+            last = info
     if use_cvc5:
         r = cvc5_check(smt2_of(obl), timeout_ms // 2)
         if r == "unsat":
